@@ -1,7 +1,7 @@
-(* PM.Model.Readers — _recv, _readline, _readvalue, _readsegment as functions of the script.
-   Each loop iteration consumes one script item (one sock.recv call), so recursion is structural
-   on the script.  Every function returns the outcome, the remaining script and the number of
-   recv calls it made. *)
+(* PM.Model.Readers — _recv, _readline, _readvalue, _readsegment as functions of the adversary's
+   choices, the bytes available on the socket and the local buffer.  Each loop iteration consumes
+   one choice (one sock.recv call), so recursion is structural on the choice list; when the list is
+   exhausted every further recv delivers everything that is available. *)
 From Coq Require Import ZArith List Bool.
 From PM Require Import Lib.Py Model.World.
 Import ListNotations.
@@ -25,72 +25,118 @@ Definition starts_lf (buf : list Z) : bool := match buf with c :: _ => c =? LF |
 
 Inductive rres (A : Type) := RDone (a : A) | RRaise (e : exn).
 Arguments RDone {A}. Arguments RRaise {A}.
+(* what a reader leaves behind: remaining choices, bytes still available on the socket, local buffer *)
+Definition rstate : Type := list choice * list Z * list Z.
+Definition chunk_len (n : Z) : nat := Z.to_nat (if n <? 1 then 1 else n).
 
-(* the result of one _recv: the next non-EINTR outcome *)
-(* _readline(sock, buf) -> (buf', line); acc is b"".join(chunks) *)
-Fixpoint readline (sc : list outcome) (acc buf : list Z) (n : nat) : rres (list Z * list Z) * list outcome * nat :=
-  if last_is_cr acc && starts_lf buf then (RDone (tl buf, removelast acc), sc, n)
-  else match split_crlf buf with
-  | Some (before, after) => (RDone (after, acc ++ before), sc, n)
+(* ---- _readline(sock, buf) -> (buf', line); acc is b"".join(chunks) ---- *)
+Definition readline_check (acc buf : list Z) : option (list Z * list Z) :=      (* (line, buf') *)
+  if last_is_cr acc && starts_lf buf then Some (removelast acc, tl buf)
+  else match split_crlf buf with Some (before, after) => Some (acc ++ before, after) | None => None end.
+
+Fixpoint readline (cs : list choice) (avail acc buf : list Z) (n : nat) : rres (list Z) * rstate * nat :=
+  match readline_check acc buf with
+  | Some (line, buf') => (RDone line, (cs, avail, buf'), n)
   | None =>
-    match sc with
-    | [] => (RRaise MemcacheUnexpectedCloseError, [], S n)          (* script exhausted: end of stream *)
-    | OEintr :: sc' => readline sc' acc buf (S n)
-    | OFail e :: sc' => (RRaise e, sc', S n)
-    | ONormal :: sc' | OData [] :: sc' => (RRaise MemcacheUnexpectedCloseError, sc', S n)
-    | OData bs :: sc' => readline sc' (acc ++ buf) bs (S n)
+    match cs with
+    | [] =>
+        match avail with
+        | [] => (RRaise WouldBlock, ([], [], acc ++ buf), S n)
+        | _ => match readline_check (acc ++ buf) avail with
+               | Some (line, buf') => (RDone line, ([], [], buf'), S n)
+               | None => (RRaise WouldBlock, ([], [], acc ++ buf ++ avail), S (S n))
+               end
+        end
+    | CEintr :: cs' => readline cs' avail acc buf (S n)
+    | CFail e :: cs' => (RRaise e, (cs', avail, acc ++ buf), S n)
+    | CEof :: cs' => (RRaise MemcacheUnexpectedCloseError, (cs', avail, acc ++ buf), S n)
+    | CChunk k :: cs' =>
+        match avail with
+        | [] => (RRaise WouldBlock, (cs', [], acc ++ buf), S n)
+        | _ => readline cs' (skipn (chunk_len k) avail) (acc ++ buf) (firstn (chunk_len k) avail) (S n)
+        end
     end
   end.
 
-(* _readvalue(sock, buf, size) -> (buf', value); rlen counts down; started = chunks is non-empty *)
-Fixpoint readvalue (sc : list outcome) (acc : list Z) (started : bool) (rlen : Z) (buf : list Z) (n : nat)
-  : rres (list Z * list Z) * list outcome * nat :=
+(* ---- _readvalue(sock, buf, size) -> (buf', value); rlen counts down; started = chunks non-empty ---- *)
+Definition readvalue_finish (acc : list Z) (started : bool) (rlen : Z) (buf : list Z) : rres (list Z) * list Z :=
+  if rlen =? 1 then
+    if started then (RDone (removelast acc), py_slice_from buf rlen) else (RRaise IndexError, acc ++ buf)
+  else (RDone (acc ++ py_slice_to buf (rlen - 2)), py_slice_from buf rlen).
+
+(* the loop head `while rlen - len(buf) > 0: if buf: rlen -= len(buf); chunks.append(buf)` for one buf *)
+Definition rv_absorb (acc : list Z) (started : bool) (rlen : Z) (buf : list Z) : list Z * bool * Z :=
+  match buf with [] => (acc, started, rlen) | _ => (acc ++ buf, true, rlen - zlen buf) end.
+
+(* state just before a recv call *)
+Fixpoint readvalue_recv (cs : list choice) (avail acc : list Z) (started : bool) (rlen : Z) (n : nat)
+  : rres (list Z) * rstate * nat :=
+  match cs with
+  | [] =>
+      match avail with
+      | [] => (RRaise WouldBlock, ([], [], acc), S n)
+      | _ => if rlen - zlen avail >? 0 then (RRaise WouldBlock, ([], [], acc ++ avail), S (S n))
+             else let '(r, buf') := readvalue_finish acc started rlen avail in (r, ([], [], buf'), S n)
+      end
+  | CEintr :: cs' => readvalue_recv cs' avail acc started rlen (S n)
+  | CFail e :: cs' => (RRaise e, (cs', avail, acc), S n)
+  | CEof :: cs' => (RRaise MemcacheUnexpectedCloseError, (cs', avail, acc), S n)
+  | CChunk k :: cs' =>
+      match avail with
+      | [] => (RRaise WouldBlock, (cs', [], acc), S n)
+      | _ =>
+        let buf := firstn (chunk_len k) avail in
+        let avail' := skipn (chunk_len k) avail in
+        if rlen - zlen buf >? 0 then
+          let '(acc', started', rlen') := rv_absorb acc started rlen buf in
+          readvalue_recv cs' avail' acc' started' rlen' (S n)
+        else let '(r, buf') := readvalue_finish acc started rlen buf in (r, (cs', avail', buf'), S n)
+      end
+  end.
+Definition readvalue (cs : list choice) (avail acc : list Z) (started : bool) (rlen : Z) (buf : list Z) (n : nat)
+  : rres (list Z) * rstate * nat :=
   if rlen - zlen buf >? 0 then
-    let '(acc', started', rlen') := match buf with [] => (acc, started, rlen) | _ => (acc ++ buf, true, rlen - zlen buf) end in
-    match sc with
-    | [] => (RRaise MemcacheUnexpectedCloseError, [], S n)
-    | OEintr :: sc' =>
-        (* _recv retries inside the same loop iteration: buf has already been appended *)
-        readvalue_eintr sc' acc' started' rlen' (S n)
-    | OFail e :: sc' => (RRaise e, sc', S n)
-    | ONormal :: sc' | OData [] :: sc' => (RRaise MemcacheUnexpectedCloseError, sc', S n)
-    | OData bs :: sc' => readvalue sc' acc' started' rlen' bs (S n)
-    end
-  else
-    if rlen =? 1 then
-      if started then (RDone (py_slice_from buf rlen, removelast acc), sc, n) else (RRaise IndexError, sc, n)
-    else (RDone (py_slice_from buf rlen, acc ++ py_slice_to buf (rlen - 2)), sc, n)
-with readvalue_eintr (sc : list outcome) (acc : list Z) (started : bool) (rlen : Z) (n : nat)
-  : rres (list Z * list Z) * list outcome * nat :=
-  match sc with
-  | [] => (RRaise MemcacheUnexpectedCloseError, [], S n)
-  | OEintr :: sc' => readvalue_eintr sc' acc started rlen (S n)
-  | OFail e :: sc' => (RRaise e, sc', S n)
-  | ONormal :: sc' | OData [] :: sc' => (RRaise MemcacheUnexpectedCloseError, sc', S n)
-  | OData bs :: sc' => readvalue sc' acc started rlen bs (S n)
-  end.
+    let '(acc', started', rlen') := rv_absorb acc started rlen buf in
+    readvalue_recv cs avail acc' started' rlen' n
+  else let '(r, buf') := readvalue_finish acc started rlen buf in (r, (cs, avail, buf'), n).
 
-(* _readsegment(sock, buf, end_tokens) -> (buf', segment), with the buffer accumulated across recv calls *)
+(* ---- _readsegment(sock, buf, end_tokens) -> (buf', segment), buffer accumulated across recv calls ---- *)
 Definition split_token (tok s : list Z) : option (list Z * list Z) :=
   match find_from tok s 0 with
   | Some i => Some (firstn (Z.to_nat i) s, skipn (Z.to_nat i + length tok) s)
   | None => None end.
-Fixpoint readsegment (sc : list outcome) (tok buf : list Z) (n : nat) : rres (list Z * list Z) * list outcome * nat :=
+Fixpoint readsegment (cs : list choice) (avail tok buf : list Z) (n : nat) : rres (list Z) * rstate * nat :=
   match split_token tok buf with
-  | Some (before, after) => (RDone (after, before), sc, n)
+  | Some (before, after) => (RDone before, (cs, avail, after), n)
   | None =>
-    match sc with
-    | [] => (RRaise MemcacheUnexpectedCloseError, [], S n)
-    | OEintr :: sc' => readsegment sc' tok buf (S n)
-    | OFail e :: sc' => (RRaise e, sc', S n)
-    | ONormal :: sc' | OData [] :: sc' => (RRaise MemcacheUnexpectedCloseError, sc', S n)
-    | OData bs :: sc' => readsegment sc' tok (buf ++ bs) (S n)
+    match cs with
+    | [] =>
+        match avail with
+        | [] => (RRaise WouldBlock, ([], [], buf), S n)
+        | _ => match split_token tok (buf ++ avail) with
+               | Some (before, after) => (RDone before, ([], [], after), S n)
+               | None => (RRaise WouldBlock, ([], [], buf ++ avail), S (S n))
+               end
+        end
+    | CEintr :: cs' => readsegment cs' avail tok buf (S n)
+    | CFail e :: cs' => (RRaise e, (cs', avail, buf), S n)
+    | CEof :: cs' => (RRaise MemcacheUnexpectedCloseError, (cs', avail, buf), S n)
+    | CChunk k :: cs' =>
+        match avail with
+        | [] => (RRaise WouldBlock, (cs', [], buf), S n)
+        | _ => readsegment cs' (skipn (chunk_len k) avail) tok (buf ++ firstn (chunk_len k) avail) (S n)
+        end
     end
   end.
 
-(* run a reader against the world's script, logging one ERecv per recv call *)
-Definition run_reader {A} (sid : Z) (r : list outcome -> rres A * list outcome * nat) : M A :=
-  sc <-- get_script ;;
-  let '(res, sc', n) := r sc in
-  set_script sc' ;;; log_n n (ERecv sid) ;;;
-  match res with RDone a => ret a | RRaise e => throw e end.
+(* run a reader on the current socket: one ERecv per recv call; the reader's buffer is w_buf *)
+Section Run.
+Variable P : Type.
+Definition run_reader {A} (sid : Z) (r : list choice -> list Z -> list Z -> rres A * rstate * nat) : M P A :=
+  fun w =>
+    let '(res, (cs', avail', buf'), n) := r (w_choices w) (conn_get (w_conns w) sid) (w_buf w) in
+    let w1 := upd_buf (upd_conns (upd_choices w cs') (conn_set (w_conns w) sid avail')) buf' in
+    let '(_, w2) := log_n n (ERecv sid) w1 in
+    (match res with RDone a => Ok a | RRaise e => Raise e end, w2).
+End Run.
+Arguments run_reader {P A}.
